@@ -347,6 +347,20 @@ func genC04(g *gen) {
 		v := g.op("x.verify 16 %s %s %s", hx(t.msg), hx(t.sig), hx(t.pk[:]))
 		g.check(v == "ok true", "valid-accepted", "valid signature not accepted: "+v, g.ops[len(g.ops)-1])
 	}
+	// a genuine signature with whole 32-byte blocks appended or removed (a different, possibly odd, height is implied)
+	g.note("genuine signatures extended / shortened by whole blocks")
+	for _, t := range ts {
+		for _, d := range []int{32, 64, 96, -32, -64} {
+			var s2 []byte
+			if d > 0 {
+				s2 = append(append([]byte{}, t.sig...), g.bytes(d)...)
+			} else {
+				s2 = append([]byte{}, t.sig[:len(t.sig)+d]...)
+			}
+			v := g.op("x.verify 16 %s %s %s", hx(t.msg), hx(s2), hx(t.pk[:]))
+			g.check(v == "ok false", "resized-sig-rejected", fmt.Sprintf("a valid signature with %+d bytes is not rejected: %s", d, v), g.ops[len(g.ops)-1])
+		}
+	}
 	// every single-bit flip of the signature, the message and the public key (implementation, all cores)
 	g.note("single-bit flips")
 	var mu sync.Mutex
